@@ -278,6 +278,20 @@ func (g *Gen) Program() []core.Op {
 		g.readBack(&prog, "bk", n)
 		return prog
 	}
+	if p.Copy > 0 && p.Patch > 0 && len(p.Names) >= 3 && g.R.Chance(1, 5) {
+		// aliasing probe for user metadata: an object created with an explicitly empty metadata map, its
+		// copy, a patch of one of the two (or a patch that is refused half-way): the other keeps what it had
+		ns := p.Names
+		prog = append(prog,
+			&Op{Kind: "upload", B: "bk", N: ns[0], Content: []byte("src"), Declared: "none", Proto: "multipart", Meta: Meta{CT: "text/plain", EmptyUM: true}},
+			&Op{Kind: "copy", B: "bk", N: ns[0], B2: "bk", N2: ns[1]})
+		tgt, other := ns[1], ns[0]
+		if g.R.Chance(1, 2) {
+			tgt, other = other, tgt
+		}
+		prog = append(prog, &Op{Kind: "patch", B: "bk", N: tgt, Meta: Meta{UM: []KV{{K: "color", V: "red"}}}},
+			&Op{Kind: "getmeta", B: "bk", N: other}, &Op{Kind: "getmeta", B: "bk", N: tgt}, g.ListOp("bk"))
+	}
 	if p.Compose > 0 && len(p.Names) >= 5 && g.R.Chance(1, 3) {
 		// aliasing probe: two composes (or a compose and a copy) that start from the same source must not
 		// disturb each other's results nor the source
